@@ -13,6 +13,7 @@ import (
 	"bytes"
 	"encoding/json"
 	"reflect"
+	"strings"
 	"testing"
 
 	"github.com/google/jsonschema-go/jsonschema"
@@ -234,6 +235,14 @@ func checkC05Doc(c *c05Case, rec *ev.Recorder) *failure {
 			spelled := c.Doc.JSONSpelled(func(s string) string {
 				return jv.EscapeSpelling(s, func() bool { n = n*1103515245 + 12345; return (n>>16)%3 == 0 })
 			})
+			if c.SpellSeed%4 == 1 {
+				// ... and with member names repeated inside the maps of subschemas: encoding/json keeps
+				// the last occurrence, so the earlier ones (arbitrary other schemas) mean nothing
+				var sb strings.Builder
+				m := uint32(c.SpellSeed)
+				writeWithShadowedMembers(c.Doc, &sb, false, &m)
+				spelled = sb.String()
+			}
 			var sp jsonschema.Schema
 			if err := json.Unmarshal([]byte(spelled), &sp); err != nil {
 				return failf("Unmarshal rejects an equivalent spelling of an accepted document: %v\n%s", err, spelled)
@@ -303,6 +312,49 @@ func TestC05(t *testing.T) {
 		"Vocabulary is left nil in struct cases (it is only resolvable beside the 2020-12 $schema value); $schema below the root and references are not set in struct cases (C03/C06/C17 cover references)",
 		"float fields are finite, integer fields lie within int32")
 	rapid.Check(t, propC05(rec))
+}
+
+// writeWithShadowedMembers writes v as JSON text; inside the value of a keyword that maps names to
+// subschemas, a third of the members are preceded by a member of the same name holding some other
+// schema (a duplicate name, of which encoding/json keeps the last).
+func writeWithShadowedMembers(v *jv.V, sb *strings.Builder, inSchemaMap bool, n *uint32) {
+	switch v.K {
+	case jv.Arr:
+		sb.WriteByte('[')
+		for i, e := range v.A {
+			if i > 0 {
+				sb.WriteByte(',')
+			}
+			writeWithShadowedMembers(e, sb, false, n)
+		}
+		sb.WriteByte(']')
+	case jv.Obj:
+		sb.WriteByte('{')
+		for i, m := range v.O {
+			if i > 0 {
+				sb.WriteByte(',')
+			}
+			k, _ := json.Marshal(m.K)
+			if inSchemaMap {
+				*n = *n*1103515245 + 12345
+				if (*n>>16)%3 == 0 {
+					sb.Write(k)
+					sb.WriteString(`:{"type":"null","title":"shadowed","minLength":7},`)
+				}
+			}
+			sb.Write(k)
+			sb.WriteByte(':')
+			isMap := false
+			switch m.K {
+			case "properties", "patternProperties", "$defs", "definitions", "dependentSchemas":
+				isMap = !inSchemaMap && m.V.K == jv.Obj
+			}
+			writeWithShadowedMembers(m.V, sb, isMap, n)
+		}
+		sb.WriteByte('}')
+	default:
+		sb.WriteString(v.JSON())
+	}
 }
 
 func init() {
